@@ -1,6 +1,7 @@
 #!/bin/sh
 # run, for every seeded change, the quick check of the property it breaks (in a scratch worktree, via VERIF_REPO);
 # prints one line per change: expected rc=1
+export VERIF_EVIDENCE_DIR=/tmp/vt/evidence_scratch; mkdir -p $VERIF_EVIDENCE_DIR   # never overwrite /verif/evidence from a scratch tree
 cd /verif
 for d in seeded/*/; do
   name=$(basename $d)
